@@ -160,7 +160,7 @@ func buildReal(dir string, seed uint64, k int) (*realPop, error) {
 		}
 		return nil, fmt.Errorf("no comment operation id with prefix %q found", want)
 	}
-	x1, x2, x3, bd2, bd0 := chosen[0], chosen[1], chosen[2], chosen[3], chosen[5]
+	x1, x2, x3, bd2, bd1, bd0 := chosen[0], chosen[1], chosen[2], chosen[3], chosen[4], chosen[5]
 	plan := []struct {
 		b    *bug.Bug
 		who  identity.Interface
@@ -184,6 +184,27 @@ func buildReal(dir string, seed uint64, k int) (*realPop, error) {
 			free = string(op.Id())
 		}
 		st.b.Append(op)
+	}
+	// inside ONE bug: a free comment and three more whose operation ids share exactly 1, 2 and 3
+	// leading characters with it (prefixes that cover the bug and 1..3 comment characters are
+	// ambiguous between comments of the same bug)
+	inner, err := mineComment(author, "")
+	if err != nil {
+		return nil, err
+	}
+	bd1.Append(inner)
+	innerId := string(inner.Id())
+	for share := 1; share <= 3; share++ {
+		for {
+			op, err := mineComment(author, innerId[:share])
+			if err != nil {
+				return nil, err
+			}
+			if commonPrefix(string(op.Id()), innerId) == share {
+				bd1.Append(op)
+				break
+			}
+		}
 	}
 	for _, b := range chosen {
 		if err := b.Commit(repo); err != nil {
@@ -214,15 +235,31 @@ func buildReal(dir string, seed uint64, k int) (*realPop, error) {
 		}
 	}
 	cs := 0
+	inside := map[int]bool{} // how many leading operation-id characters two comments of one bug share
 	for i := range pop.Comments {
 		for j := i + 1; j < len(pop.Comments); j++ {
-			if n := commonPrefix(pop.Comments[i].Combined, pop.Comments[j].Combined); n > cs && pop.Comments[i].Bug != pop.Comments[j].Bug {
+			if pop.Comments[i].Bug == pop.Comments[j].Bug {
+				inside[commonPrefix(pop.Comments[i].OpId, pop.Comments[j].OpId)] = true
+				continue
+			}
+			if n := commonPrefix(pop.Comments[i].Combined, pop.Comments[j].Combined); n > cs {
 				cs = n
 			}
 		}
 	}
-	pop.Shape = fmt.Sprintf("bug ids share %s leading characters pairwise; identities %d/%d; %d comments; longest combined-id prefix shared by comments of different bugs: %d",
-		strings.Join(sh, ""), commonPrefix(pop.Idents[0], pop.Idents[1]), commonPrefix(pop.Idents[0], pop.Idents[2]), len(pop.Comments), cs)
+	var in []string
+	for n := 0; n <= 64; n++ {
+		if inside[n] {
+			in = append(in, fmt.Sprint(n))
+		}
+	}
+	for n := 1; n <= 3; n++ {
+		if !inside[n] {
+			return nil, fmt.Errorf("population has no two comments of one bug whose operation ids share exactly %d leading characters", n)
+		}
+	}
+	pop.Shape = fmt.Sprintf("bug ids share %s leading characters pairwise; identities %d/%d; %d comments; longest combined-id prefix shared by comments of different bugs: %d; operation ids of comments of the same bug share %s leading characters",
+		strings.Join(sh, ""), commonPrefix(pop.Idents[0], pop.Idents[1]), commonPrefix(pop.Idents[0], pop.Idents[2]), len(pop.Comments), cs, strings.Join(in, ","))
 	return pop, nil
 }
 
@@ -298,8 +335,9 @@ func resolveComment(c *cache.RepoCache, prefix string) (bugId, commentId string,
 	return bugId, commentId, err, nil
 }
 
-// judgeComment: the statement fixes the outcome when exactly one comment of the population has the
-// prefix (that comment and its bug) and forbids ever resolving to a comment that does not have it.
+// judgeComment: exactly one comment of the population has the prefix -> that comment and its bug;
+// none -> an error; several (of the same bug or not) -> an error (any error), never a successful
+// resolution.
 func judgeComment(exp []commentRef, bugId, commentId string, err error, panicked any) (sig, detail string) {
 	if panicked != nil {
 		return "panic", fmt.Sprintf("panicked: %v", panicked)
@@ -312,12 +350,18 @@ func judgeComment(exp []commentRef, bugId, commentId string, err error, panicked
 	case len(exp) == 1 && (commentId != exp[0].Combined || bugId != exp[0].Bug):
 		return "single-comment-wrong-target", fmt.Sprintf("exactly comment %s of bug %s has the prefix; got comment %s of bug %s", short([]string{exp[0].Combined})[0], short([]string{exp[0].Bug})[0], short([]string{commentId})[0], short([]string{bugId})[0])
 	case len(exp) > 1 && err == nil:
-		for _, e := range exp {
-			if e.Combined == commentId && e.Bug == bugId {
-				return "", "" // ambiguous prefix answered with one of the candidates: not fixed by the statement
+		// a prefix that several comments have does not identify a single comment: resolving it
+		// silently to one of them is resolving to "another" for whoever meant the other one
+		same := "different bugs"
+		if exp[0].Bug == exp[len(exp)-1].Bug {
+			same = "the same bug"
+			for _, e := range exp {
+				if e.Bug != exp[0].Bug {
+					same = "different bugs"
+				}
 			}
 		}
-		return "ambiguous-resolved-to-non-matching", fmt.Sprintf("%d comments have the prefix; got comment %s of bug %s which does not", len(exp), short([]string{commentId})[0], short([]string{bugId})[0])
+		return "ambiguous-prefix-resolved", fmt.Sprintf("%d comments (of %s) have the prefix; comment %s of bug %s was returned without error", len(exp), same, short([]string{commentId})[0], short([]string{bugId})[0])
 	}
 	return "", ""
 }
